@@ -16,6 +16,7 @@ Operations
                                           gfa.add_line(the same object)
     ["item", index, how, arg, as_line]    group.add_item/rm_item/append_item/prepend_item/rm_first_item/rm_last_item
     ["rename", index, new]                line.name = new
+    ["rename_pending", index, name]       line.name = <an identifier that is mentioned and not defined>: refused
     ["set_tag", index, name, type, val]   line.set_datatype + line.set (val None = delete)
 """
 from . import gen
@@ -436,7 +437,7 @@ def gen_history(r, version, opts=None):
         doc = gen.build_gfa1(r, {"names": POOL["S"], "nseg": (1, 4), "both_forms": False, "headers": False,
                                   "ids": False, "shuffle": False, "comments": False}) if version == "gfa1" else \
             gen.build_gfa2(r, {"names": POOL["S"], "nseg": (1, 4), "headers": False, "shuffle": False,
-                                "comments": False, "groups": False, "custom_tagshaped": False})
+                                "comments": False, "groups": False, "custom_tagshaped": False, "zero_len": 0})
         # re-plan lengths to what the document says
         for l in doc["lines"]:
             if l[0] == "S":
@@ -529,6 +530,12 @@ def gen_history(r, version, opts=None):
             if both and gen.chance(r, 0.5):
                 i = gen.choice(r, both)  # ... and which a circular line mentions twice
             rec = st.model.recs[i]
+            pend = sorted(st.model.undefined_mentions())
+            if pend and gen.fair(r, 0.12):
+                # towards an identifier which lines mention and no line defines yet: gfapy refuses that (no change);
+                # a library that accepts it has to make the renamed line the one those mentions resolve to
+                ops.append(["rename_pending", i, gen.choice(r, pend)])
+                continue
             kind = rec.rt if rec.rt in POOL else "S"
             new = st.free_name(kind, r, allow_undefined=False)
             if rec.rt in ("E", "G", "O", "U") and gen.chance(r, 0.25) and \
@@ -828,6 +835,19 @@ class Runner:
             if line is None:
                 raise LookupError("model record %r has no line in the Gfa" % rec.text())
             line.name = op[2]
+            self.model.rename(rec, op[2])
+        elif kind == "rename_pending":
+            rec = self.model.recs[op[1]]
+            line = self.find_line(rec)
+            if line is None:
+                raise LookupError("model record %r has no line in the Gfa" % rec.text())
+            try:
+                line.name = op[2]
+            except gfapy.NotUniqueError:
+                return
+            if self.gfa.line(op[2]) is not line or [str(x) for x in self.gfa.names].count(op[2]) != 1:
+                raise LookupError("the rename of %r to the pending identifier %r was accepted, but line(%r) is %r and names holds it %d times" % (
+                    rec.text(), op[2], op[2], self.gfa.line(op[2]), [str(x) for x in self.gfa.names].count(op[2])))
             self.model.rename(rec, op[2])
         elif kind == "set_tag":
             rec = self.model.recs[op[1]]
